@@ -1129,6 +1129,122 @@ def check_to_no_checks(chk, F):
     chk.floor(R, "conversions", n, 2)
 
 
+# ---- R13.8 the public glue around the iterator ------------------------------------------------------------------------------
+
+def check_glue(chk, F):
+    from ..builtins import deref, NOT_HANDLED
+    R = "R13.8"
+    chk.rule(R, "the public entry points put the iterator R13.1-R13.3 judge in the state those rules assume: "
+                "Interpreter::from_txdata stores inner / stack / script code as inner::from_txdata returned them and the "
+                "caller's sequence and lock time (each in its own field) and passes a refusal on; iter_custom starts with the "
+                "spent key for key spends and the script at (0 evaluated, 0 satisfied) for script spends, a copy of the stack, "
+                "the interpreter's sequence and lock time, no error, the spend's signature type and the caller's verifier; "
+                "iter_assume_sigs accepts every signature; iter's verifier is verify_sig on the caller's transaction, input "
+                "index and prevouts; inferred_descriptor_string names the output type the spend was recognised as")
+    anchors = {}
+    for nm in ("from_txdata", "iter_custom", "iter_assume_sigs", "iter", "inferred_descriptor_string", "verify_sig"):
+        try:
+            anchors[nm] = F.fn(nm, file="interpreter/mod.rs", container="Interpreter")
+        except KeyError as e:
+            chk.fail(R, "anchor|" + nm, "Interpreter::%s not found: %s" % (nm, e), kind="unanalysable")
+            return
+    inner_ft = F.fn("from_txdata", file="interpreter/inner.rs")
+    chk.saw(*anchors.values())
+    n = 0
+    # from_txdata
+    for outcome in ("ok", "err"):
+        def hook(m_, a, c, outcome=outcome):
+            if [deref(x) for x in a] != ["SPK", "SCRIPTSIG", "WITNESS"]:
+                return err(Term("wrong-arguments", *a))
+            return ok((Term("INNER"), Term("STACK"), Term("CODE"))) if outcome == "ok" else err(Term("REFUSED"))
+        m = Machine(F, strict=True, hooks={inner_ft: hook})
+        try:
+            r = m.call_path(anchors["from_txdata"], ["SPK", "SCRIPTSIG", "WITNESS", Term("SEQ"), Term("LT")])
+        except (Unsupported, Panic) as e:
+            chk.fail(R, "unanalysable:from_txdata", "unanalysable: %s" % e, where=getattr(e, "where", ""), kind="unanalysable")
+            continue
+        n += 1
+        if outcome == "err":
+            chk.obligation(R, r.variant == "Err" and "REFUSED" in repr(r), "from_txdata|refusal", "a refusal of inner::from_txdata "
+                           "becomes %r" % (r,), where="src/interpreter/mod.rs")
+            continue
+        got = {k: repr(v) for k, v in r.fields["0"].fields.items()} if r.variant == "Ok" else repr(r)
+        want = {"inner": repr(Term("INNER")), "stack": repr(Term("STACK")), "script_code": repr(Term("CODE")),
+                "sequence": repr(Term("SEQ")), "lock_time": repr(Term("LT"))}
+        chk.obligation(R, got == want, "from_txdata|fields", "Interpreter built by from_txdata is %r, expected %r" % (got, want),
+                       where="src/interpreter/mod.rs")
+    # iter_custom / iter_assume_sigs / iter / inferred_descriptor_string
+    names = {("PublicKey", "Pk"): "pk(KEY)", ("PublicKey", "Pkh"): "pkh(KEY)", ("PublicKey", "Wpkh"): "wpkh(KEY)",
+             ("PublicKey", "ShWpkh"): "sh(wpkh(KEY))", ("PublicKey", "Tr"): None, ("Script", "Bare"): "MS", ("Script", "Sh"): "sh(MS)",
+             ("Script", "Wsh"): "wsh(MS)", ("Script", "ShWsh"): "sh(wsh(MS))", ("Script", "Tr"): None}
+    for (ik, sub), flavour in sorted(FLAVOUR.items()):
+        key = "%s/%s" % (ik, sub)
+        payload = "KEY" if ik == "PublicKey" else "MS"
+        inner = Adt(INNER, ik, {"0": payload, "1": Adt(PKT if ik == "PublicKey" else SCT, sub, {})})
+        stack = Adt(STACK, "Stack", {"0": PyVec(["e0", "e1"])})
+        interp = Adt(INTERP, "Interpreter", {"inner": inner, "stack": stack, "script_code": some(Term("script_code")),
+                                             "sequence": Term("SEQ"), "lock_time": Term("LT")})
+        calls = []
+
+        def vhook(m_, a, c):
+            calls.append([repr(deref(x)) for x in a[1:]])
+            return True
+        m = Machine(F, strict=True, hooks={anchors["verify_sig"]: vhook})
+        m.text_keys = True
+        try:
+            verifier = lambda pair: "VERDICT"      # noqa: E731
+            it = m.call_path(anchors["iter_custom"], [interp, verifier])
+            bad = []
+            f = it.fields
+            pk = deref(f["public_key"])
+            if ik == "PublicKey":
+                if not (pk.variant == "Some" and deref(pk.fields["0"]) == "KEY"):
+                    bad.append("public_key %r" % (pk,))
+                if len(deref(f["state"]).items) != 0:
+                    bad.append("evaluation state %r for a key spend" % (f["state"],))
+            else:
+                if pk.variant != "None":
+                    bad.append("public_key %r for a script spend" % (pk,))
+                st = [deref(x) for x in deref(f["state"]).items]
+                if not (len(st) == 1 and deref(st[0].fields["node"]) == "MS" and st[0].fields["n_evaluated"] == 0
+                        and st[0].fields["n_satisfied"] == 0):
+                    bad.append("evaluation state %r" % (st,))
+            stv = deref(f["stack"])
+            if [deref(x) for x in deref(stv.fields["0"]).items] != ["e0", "e1"]:
+                bad.append("stack %r" % (stv,))
+            if repr(f["sequence"]) != repr(Term("SEQ")) or repr(f["lock_time"]) != repr(Term("LT")):
+                bad.append("sequence %r / lock time %r" % (f["sequence"], f["lock_time"]))
+            if f["has_errored"] is not False:
+                bad.append("has_errored %r" % (f["has_errored"],))
+            if f["sig_type"].variant != ("Schnorr" if flavour.startswith("taproot") else "Ecdsa"):
+                bad.append("sig_type %r" % (f["sig_type"],))
+            v = f["verify_sig"]
+            if m.call_value(v, [Term("pair")]) != "VERDICT":
+                bad.append("the verifier is not the caller's")
+            it2 = m.call_path(anchors["iter_assume_sigs"], [interp])
+            if m.call_value(it2.fields["verify_sig"], [Term("pair")]) is not True:
+                bad.append("iter_assume_sigs' verifier does not accept")
+            it3 = m.call_path(anchors["iter"], [interp, Term("SECP"), Term("TX"), Term("IDX"), Term("PREVOUTS")])
+            del calls[:]
+            res = m.call_value(it3.fields["verify_sig"], [Term("pair")])
+            if res is not True or calls != [[repr(Term("SECP")), repr(Term("TX")), repr(Term("IDX")), repr(Term("PREVOUTS")), repr(Term("pair"))]]:
+                bad.append("iter's verifier calls verify_sig with %r" % (calls,))
+            for other in (it2, it3):
+                for fld in ("public_key", "state", "stack", "sequence", "lock_time", "has_errored", "sig_type"):
+                    if repr(other.fields[fld]) != repr(f[fld]):
+                        bad.append("iter / iter_assume_sigs differ from iter_custom in %s" % fld)
+            text = m.call_path(anchors["inferred_descriptor_string"], [interp])
+            if names[(ik, sub)] is not None and text != names[(ik, sub)]:
+                bad.append("inferred descriptor %r, expected %r" % (text, names[(ik, sub)]))
+            if names[(ik, sub)] is None and payload not in text:
+                bad.append("inferred descriptor %r does not mention the %s" % (text, payload))
+            n += 1
+            chk.obligation(R, not bad, "iter|" + key, "; ".join(bad[:3]), where="src/interpreter/mod.rs")
+        except (Unsupported, Panic) as e:
+            chk.fail(R, "unanalysable:iter|" + key, "unanalysable: %s" % e, where=getattr(e, "where", ""), kind="unanalysable")
+    chk.floor(R, "cases", n, 11)
+
+
 def run(chk):
     F = chk.facts()
     chk.explanation = __doc__
@@ -1145,3 +1261,5 @@ def run(chk):
         chk.guard("R13.1p", "pubkey", check_pubkey_spend, chk, F)
     if not ONLY or "7" in ONLY:
         chk.guard("R13.7", "to-no-checks", check_to_no_checks, chk, F)
+    if not ONLY or "8" in ONLY:
+        chk.guard("R13.8", "glue", check_glue, chk, F)
